@@ -6,7 +6,7 @@ from .. import step, outer, runstart
 
 
 def harnesses(tier, seed):
-    return step.step_harnesses(tier, seed, 'C04') + outer.outer_harnesses(tier, seed, 'C04') + runstart.start_harnesses(tier, seed, 'C04')
+    return step.step_harnesses(tier, seed, 'C04') + step.action_harnesses(tier, seed, 'C04') + outer.outer_harnesses(tier, seed, 'C04') + runstart.start_harnesses(tier, seed, 'C04')
 
 
 def run(tier, seed):
